@@ -101,6 +101,33 @@ type env struct {
 	epoch  int
 	probes int
 	lost0  int64
+	// a missing reply becomes a finding only after a wait no load explains; the drivers afford that a few times
+	patientLeft int
+}
+
+const patientWait = 25 * time.Second
+
+// settle is called at the end of a run with the requests that still have no reply: the first runs of a driver in which
+// that happens wait very long for them; it reports whether the silence may be judged.
+func (e *env) settle(pending []*rq) bool {
+	if len(pending) == 0 {
+		return true
+	}
+	if e.patientLeft <= 0 {
+		return false
+	}
+	e.patientLeft--
+	dl := time.Now().Add(patientWait)
+	for _, q := range pending {
+		if d := time.Until(dl); d > 0 && !q.got {
+			select {
+			case r := <-q.ch:
+				q.got, q.rep = true, r
+			case <-time.After(d):
+			}
+		}
+	}
+	return true
 }
 
 // w is the deadline of an event wait: generous until a wait of this run has failed.
@@ -175,6 +202,7 @@ func (e *env) runHop(name string, c hcase) map[string]interface{} {
 		return conns[i]
 	}
 	reqs := map[int]*rq{}
+	extra := []*rq{} // filler requests of the race steps
 	collisions, diverged, races := 0, 0, 0
 	for _, s := range c.Steps {
 		switch s.Op {
@@ -246,6 +274,7 @@ func (e *env) runHop(name string, c hcase) map[string]interface{} {
 				fill = append(fill, f)
 			}
 			e.sched.Release("us.recv.guard")
+			extra = append(extra, fill...)
 			for _, f := range fill {
 				if f.arr != nil && !f.poll() {
 					e.up.Reply(f.arr.Conn, f.arr.UID, f.tok, "ans")
@@ -306,6 +335,7 @@ func (e *env) runHop(name string, c hcase) map[string]interface{} {
 				fill = append(fill, f)
 			}
 			e.sched.Release("us.recv.guard")
+			extra = append(extra, fill...)
 			for _, f := range fill {
 				if f.arr != nil && !f.poll() {
 					e.up.Reply(f.arr.Conn, f.arr.UID, f.tok, "ans")
@@ -349,8 +379,20 @@ func (e *env) runHop(name string, c hcase) map[string]interface{} {
 			q.wait(e.w(0))
 		}
 	}
+	pending := []*rq{}
+	for _, q := range reqs {
+		if !q.poll() {
+			pending = append(pending, q)
+		}
+	}
+	for _, q := range extra {
+		if !q.poll() {
+			pending = append(pending, q)
+		}
+	}
+	patient := e.settle(pending)
 	time.Sleep(15 * time.Millisecond) // frames that must not come
-	e.tr.Emit(vh.Ev{"ev": "quiesce"})
+	e.tr.Emit(vh.Ev{"ev": "quiesce", "patient": patient})
 	return map[string]interface{}{"name": name, "collisions": collisions, "diverged": diverged, "races": races, "lost": atomic.LoadInt64(&lost) - e.lost0}
 }
 
@@ -367,6 +409,8 @@ func (e *env) runStorm(name string, rng *rand.Rand, nconn, workersPerConn, burst
 	var freshMu sync.Mutex
 	fresh := func() uint32 { freshMu.Lock(); defer freshMu.Unlock(); return e.freshID() }
 	var total, errs, coll int64
+	var pmu sync.Mutex
+	pending := []*rq{}
 	var wg sync.WaitGroup
 	stopClose := make(chan struct{})
 	closed := int64(0)
@@ -423,6 +467,9 @@ func (e *env) runStorm(name string, rng *rand.Rand, nconn, workersPerConn, burst
 					for _, q := range qs {
 						atomic.AddInt64(&total, 1)
 						if !q.wait(e.w(100 * time.Millisecond)) {
+							pmu.Lock()
+							pending = append(pending, q)
+							pmu.Unlock()
 							continue
 						}
 						if !q.rep.OK {
@@ -445,8 +492,9 @@ func (e *env) runStorm(name string, rng *rand.Rand, nconn, workersPerConn, burst
 		e.epoch++
 		e.warm(conns[0], name)
 	}
+	patient := e.settle(pending)
 	time.Sleep(30 * time.Millisecond)
-	e.tr.Emit(vh.Ev{"ev": "quiesce"})
+	e.tr.Emit(vh.Ev{"ev": "quiesce", "patient": patient})
 	for _, cl := range conns {
 		cl.Close()
 	}
@@ -497,13 +545,13 @@ func main() {
 	laddr := startMosn(tmp, up)
 	sched := gate.Install(nil)
 	defer sched.Uninstall()
-	e := &env{tr: tr, up: up, sched: sched, laddr: laddr, emit: emit, shard: *shard}
+	e := &env{tr: tr, up: up, sched: sched, laddr: laddr, emit: emit, shard: *shard, patientLeft: 3}
 	// the first request makes the pool connect (it fails while the pool connects): warm up outside any run
 	tr.Emit(vh.Ev{"ev": "run", "name": fmt.Sprintf("warm%d", *shard), "mode": "warm"})
 	cl := e.dial()
 	warmOK := e.warm(cl, fmt.Sprintf("w%d", *shard))
 	cl.Close()
-	tr.Emit(vh.Ev{"ev": "quiesce"})
+	tr.Emit(vh.Ev{"ev": "quiesce", "patient": false})
 	if !warmOK {
 		// nothing gets through the proxy: the recorded warm-up (requests sent, frames received) is all there is to judge
 		rs.Put(map[string]interface{}{"summary": true, "runs": 0, "skipped": 0, "lost": atomic.LoadInt64(&lost), "warm_failed": true})
